@@ -231,6 +231,8 @@ class SeqGen:
         ri = 1
         if s and s.stream is None and r.chance(*self.p.get("block_chance", (1, 6))):
             ri = 0
+        if s and s.stream is None and s.backlog == 0 and self.canon(s.topic) not in self.topics and r.chance(2, 3):
+            ri = 0             # a blocking Pull on a subscription that has outlived its topic must still wait
         self.emit("pull %s %d %d" % (hx(n), mx, ri))
         if s:
             m16 = mx % 65536
